@@ -175,7 +175,7 @@ def pair_case(args):
     names, tier = args
     from ..fixtures import c04fx as fx
 
-    allv = values.arg_atoms() + values.containers(values.arg_atoms(), 1) + fn_atoms()
+    allv = values.arg_atoms() + values.containers(values.arg_atoms(), 2 if tier == "thorough" else 1) + fn_atoms()
     out = {"evaluations": 0, "states": 0, "transitions": 0, "traces": 0, "violations": [], "outcomes": []}
     enc = {}
     hs = {}
